@@ -1,11 +1,12 @@
-import RtcModel.Drv.C02
+import RtcModel.Drv.DtlsHsStream
 /- Driver for C11: the same `hs` stream as C02 (one endpoint's datagram/tick history replayed on the
 model), fed with fault scripts (loss, duplication, reordering, re-fragmentation, ticks). -/
 namespace RtcModel.Drv.C11
 
 def handle (stream : String) (args : List String) : String :=
   match stream with
-  | "hs" => RtcModel.Drv.C02.hsSession args
+  | "hs" => RtcModel.Drv.DtlsStream.hsSession args
+  | "dl" => RtcModel.Drv.DtlsStream.deadlineCheck args
   | _ => "bad-stream"
 
 end RtcModel.Drv.C11
